@@ -780,6 +780,14 @@ def _parse_schema(
                     max_depth_override,
                     allow_self_reference,
                 )
+        elif (
+            current_final_type == "object"
+            and not final_properties_for_ir
+            and not (any_of_irs or one_of_irs or all_of_components_irs)
+        ):
+            # A free-form object: JSON Schema's default for additionalProperties is true. Without this the model is a
+            # dataclass without fields and every key of the payload is silently dropped.
+            additional_properties_value = True
 
         schema_ir = IRSchema(
             name=schema_ir_name_attr,
